@@ -757,7 +757,12 @@ where
                 } else {
                     self.metrics.record_evm_error_conflict();
                     if started_at_commit_head {
-                        if invalid_transaction {
+                        // Workers run with the nonce check disabled, so this attempt may have
+                        // executed the body of a transaction that in-order validation rejects on
+                        // its nonce before touching any other state. Unless the caller disabled
+                        // nonce checks too, only the in-order replay can tell a fatal error from
+                        // one raised inside such a body; it reports a genuine error unchanged.
+                        if invalid_transaction || !self.cfg.disable_nonce_check {
                             self.abort(AbortReason::FallbackSequential);
                         } else {
                             self.abort(AbortReason::FatalEvmError(txid));
